@@ -528,7 +528,8 @@ Qed.
 
 Local Open Scope Z_scope.
 
-(** DATA_PAGE; extreme i32s; crc -1; statistics with null_count, an empty but non nil max_value and a min_value with bytes >= 0x80 *)
+(** DATA_PAGE; extreme i32s; crc -1; statistics with null_count, an empty but non nil
+    max_value and a min_value with bytes >= 0x80 *)
 Definition ex_ph2 : page_header :=
   {| ph_type := 0; ph_uncompressed_size := 2147483647; ph_compressed_size := (-2147483648);
   ph_crc := (Some (-1)); ph_data := (Some {| dph_num_values := 300; dph_encoding := 2;
@@ -673,7 +674,8 @@ Proof. vm_compute. reflexivity. Qed.
 Example ex_fm14_ok : file_meta_ok ex_fm14 = true.
 Proof. vm_compute. reflexivity. Qed.
 
-(** a typical small file: 4 schema elements (one with every optional field, names with bytes >= 0x80 and the empty name), one row group of two columns, created_by *)
+(** a typical small file: 4 schema elements (one with every optional field, names with
+    bytes >= 0x80 and the empty name), one row group of two columns, created_by *)
 Definition ex_fm15 : file_meta :=
   {| fm_version := 1; fm_schema := [{| se_type := None; se_type_length := None; se_repetition :=
   None; se_name := [114; 111; 111; 116]%N; se_num_children := (Some 3); se_converted := None;
@@ -852,6 +854,16 @@ Definition ex_fm19_bytes : bytes :=
   0; 22; 6; 22; 10; 25; 44; 21; 0; 17; 18; 0; 21; 2; 18; 17; 0; 0; 57; 44; 28; 0; 0; 28; 0; 0;
   0]%N.
 Example ex_fm19_dec : dec_file_meta (ex_fm19_bytes ++ [9]%N) = Some (ex_fm19, [9]%N).
+Proof. vm_compute. reflexivity. Qed.
+
+(** Every strict prefix of a library byte string is rejected (truncated input). *)
+Example ex_fm15_truncated :
+  forallb (fun k => match dec_file_meta (firstn k ex_fm15_bytes) with None => true | Some _ => false end)
+          (seq 0 (length ex_fm15_bytes)) = true.
+Proof. vm_compute. reflexivity. Qed.
+Example ex_ph12_truncated :
+  forallb (fun k => match dec_page_header (firstn k ex_ph12_bytes) with None => true | Some _ => false end)
+          (seq 0 (length ex_ph12_bytes)) = true.
 Proof. vm_compute. reflexivity. Qed.
 
 Print Assumptions dec_enc_page_header.
